@@ -16,7 +16,7 @@ def run(id_, also, tier, confirm):
     d = os.path.join(SEEDED, id_)
     meta = json.load(open(os.path.join(d, "meta.json")))
     if confirm:
-        r = subprocess.run([os.path.join(ROOT, "tools/seedconfirm.sh"), d], capture_output=True, text=True)
+        r = subprocess.run([os.path.join(ROOT, "tools/seedconfirm.sh"), d], capture_output=True, text=True, errors="replace")
         meta["confirmed"] = r.returncode == 0
         print(r.stdout.strip().splitlines()[-1])
     props = [meta["property"]] + [p for p in meta.get("also_check", []) if p != meta["property"]] + [p for p in also if p != meta["property"]]
@@ -24,11 +24,11 @@ def run(id_, also, tier, confirm):
     env = dict(os.environ, MUT_TIER=tier, MUT_SHOW="40")
     if meta.get("base_commit"):
         env["MUT_BASE"] = meta["base_commit"]
-    out = subprocess.run([os.path.join(ROOT, "tools/trymutant.sh"), os.path.join(d, "patch.diff")] + props, capture_output=True, text=True, env=env).stdout
+    out = subprocess.run([os.path.join(ROOT, "tools/trymutant.sh"), os.path.join(d, "patch.diff")] + props, capture_output=True, text=True, errors="replace", env=env).stdout
     base_sigs = None
     if meta.get("base_commit"):
         # the base commit predates later repairs: what the checks report on the base tree itself does not count
-        bout = subprocess.run([os.path.join(ROOT, "tools/trymutant.sh"), os.path.join(d, "patch.diff")] + props, capture_output=True, text=True, env=dict(env, MUT_NOPATCH="1")).stdout
+        bout = subprocess.run([os.path.join(ROOT, "tools/trymutant.sh"), os.path.join(d, "patch.diff")] + props, capture_output=True, text=True, errors="replace", env=dict(env, MUT_NOPATCH="1")).stdout
         base_sigs = {}
         cur = None
         for line in bout.splitlines():
